@@ -14,7 +14,8 @@ import os, re, json, collections
 from concurrent.futures import ProcessPoolExecutor
 from ..context import Context
 from ..report import Report
-from ..facts import Matcher, ANY, is_const, const_val
+from ..facts import Facts, Matcher, ANY, is_const, const_val, describe
+from ..ir import Module
 from ..rules import stores_to_field
 from .. import assumptions as A
 
@@ -358,10 +359,63 @@ def run(tier, seed):
         rep.check(rid, bool(ow) and set(ow) <= lh1_fns and not late and rd_entry is not None, "the -lh1- offset tables are written only during initialisation (no writer is reachable from lha_lh1_read)",
                   "lh1_decoder.c", "%s; reachable from the read entry: %s" % (dict(ow), late), function="lh1", obj="offset-writers")
 
+        # S-lh1-pool: the group pool.  alloc_group() hands out groups[num_groups++] with no test of its own: what keeps the index inside the table is
+        # that the count is moved by one at a time and that every pass which regroups the whole tree (a counted loop that allocates) starts from
+        # an empty pool.  Decided on the fully inlined unit, so that helpers and their callers need no names.
+        rid = rep.rule("S-lh1-pool", "support of A-lh1-tree: LHALH1Decoder.num_groups is only ever set to 0, raised by one or lowered by one, and every counted pass "
+                                     "that allocates groups is dominated by a reset of the count to 0", 4)
+        lh1 = Module(paths["lh1"])
+        npool = 0
+        for ent in [f for f in lh1.defined() if f.cname in ("lha_lh1_init", "lha_lh1_read")]:
+            Me, Fe = Matcher(ent), Facts(ent)
+            NG = ("field", "LHALH1Decoder", "num_groups", ANY)
+            sts = stores_to_field(lh1, "LHALH1Decoder", "num_groups", [ent])
+            resets, incs = [], []
+            for st in sts:
+                if is_const(st.ops[0]) and const_val(st.ops[0]) is not None and 0 <= const_val(st.ops[0]) <= 4:
+                    # 0, or (the compiler having folded "0, then one allocation") a small known count
+                    resets.append(st)
+                    kind = "reset (to the known count %d)" % const_val(st.ops[0])
+                elif Me.match(("bin", "add", ("load", NG), 1), st.ops[0], {}) is not None:
+                    incs.append(st)
+                    kind = "raise"
+                elif Me.match(("bin", "add", ("load", NG), -1), st.ops[0], {}) is not None or Me.match(("bin", "sub", ("load", NG), 1), st.ops[0], {}) is not None:
+                    kind = "lower"
+                else:
+                    kind = None
+                npool += 1
+                rep.check(rid, kind is not None, "%s: num_groups %s" % (ent.cname, kind or "is given a value that is neither 0 nor the old count +- 1"), st.where(),
+                          None if kind else "stores %s" % describe(ent, st.ops[0]), function=ent.cname, obj="pool-store")
+            for lp in ent.loops():
+                inside = [st for st in incs if st.block.id in lp["body"]]
+                if not inside:
+                    continue
+                # counted: a header phi with a constant step, compared with a constant on an exit edge
+                hdr = ent.blocks[lp["header"]]
+                counted = False
+                for ph in [i for i in hdr.insts if i.op == "phi" and not i.ty.endswith("*")]:
+                    ins = [v for v, b in ph.incoming if b not in lp["body"]]
+                    backs = [v for v, b in ph.incoming if b in lp["body"]]
+                    step = all(Me.match(("bin", "add", ("inst", ph.id), ("bind", "c", ("const",))), v, {}) is not None for v in backs) and bool(backs)
+                    if not (ins and step):
+                        continue
+                    for (b, x) in lp["exits"]:
+                        for f in Fe.edge_facts(b, x):
+                            if is_const(f[2]) and Me.strip(f[1]) in ({("v", ph.id)} | {Me.strip(v) for v in backs}):
+                                counted = True
+                if not counted:
+                    continue                # the walk from a leaf to the root: bounded by the shape of the tree, which is the assumption itself
+                dom = [r for r in resets if r.block.id not in lp["body"] and ent.dominates(r.block.id, lp["header"])]
+                npool += 1
+                rep.check(rid, bool(dom), "%s: the counted pass at line %s that allocates groups starts from an empty pool" % (ent.cname, hdr.term.line()),
+                          "%s:%s" % (ent.file, hdr.term.line()),
+                          None if dom else "no store num_groups = 0 dominates this loop: every rebuild stacks its groups on top of the abandoned ones and groups[num_groups] runs off the table",
+                          function=ent.cname, obj="pool-reset")
+        rep.check(rid, npool >= 4, "group pool sites found", "lh1_decoder.c", "%d" % npool, function="lh1", obj="pool-sites")
+
         # ---- R4 pm1 table walk -------------------------------------------------------------------------------
         rid = rep.rule("R4", "pm1 byte_decode_trees: every bit path from each of the 32 roots stays inside its 5-byte row and ends in a leaf nibble", 32)
         pm_path = paths["pm1"]
-        from ..ir import Module
         pm_mod = Module(pm_path)
         pm1_table_walk(rep, rid, pm_mod)
         # the row pointer comes from that table with a 5-bit index
